@@ -232,6 +232,12 @@ pub fn fs_rule(prop: &str) -> String {
     };
     let huge = if prop == "C01" {
         "; one case in 64 is a huge-file history instead (probe huge_cases): a pre-existing file of 2 GiB - 1400 KiB .. 4 GiB - 1 bytes (sizes at and around 2^31 and the 4 GiB - 1 limit) on a FAT32 volume with 16/32/64 KiB clusters, chain in 1..5 shuffled runs (one boundary at the 2 GiB cluster), seeks from start / current (incl. i32::MIN / MAX and deltas across 2^31) / end, reads and writes across block, cluster and 2^31 boundaries and across the size limit, re-opens; the model is the formatted medium plus an overlay of written blocks, and a small neighbour file must never change"
+    } else if prop == "C07" {
+        "; one case in 64 is a huge-file case instead (probe two_directory_entries_4_gib_apart): a sub-directory whose first block lies 2^23 blocks behind the root directory's holds an empty file in the slot that an open file of the root occupies there; that file must open and (on writable cases) delete although its entry lies exactly 4 GiB behind an open file's"
+    } else if prop == "C05" {
+        "; one case in 256 is a huge-file case instead (probe huge_file_deleted): a file of 32768 .. 262144 clusters is closed and deleted; afterwards only the root directory and the small neighbour file may own clusters"
+    } else if prop == "C04" {
+        "; one case in 16 goes to the mount engine instead (probe wrote_after_mounting_with_a_damaged_information_sector): a FAT32 medium whose information sector or BPB_FSInfo holds a boundary value or random bytes; if the library mounts it, creating and writing a small file may write only FAT blocks, the root directory, clusters that were free and the formatter's information sector"
     } else {
         ""
     };
